@@ -9,6 +9,7 @@ from functools import lru_cache
 from typing import (
     Any,
     ClassVar,
+    ForwardRef,
     Literal,
     Mapping,
     NamedTuple,
@@ -356,6 +357,13 @@ def get_type_info(type_: Any, allow_sequence: bool = True) -> FieldTypeInfo:
     return FieldTypeInfo(is_collection(type_), type_)
 
 
+def _has_forward_ref(type_: Any) -> bool:
+    """Return True if a (possibly generic) type has an unresolved forward reference inside."""
+    return any(
+        isinstance(t, (str, ForwardRef)) or _has_forward_ref(t) for t in get_args(type_)
+    )
+
+
 def get_field_types(type_: type[DataclassInstance]) -> dict[Field, Any]:
     """Return the type of a dataclass field.
 
@@ -363,10 +371,17 @@ def get_field_types(type_: type[DataclassInstance]) -> dict[Field, Any]:
     """
     ret: dict[Field, Any] = {}
 
+    # Resolved lazily. Forward references may also hide inside generics,
+    # e.g. tuple['Node', ...] or Optional['Node'] with non-postponed annotations
+    hints: dict[str, Any] | None = None
+
     for field in fields(type_):
         f_type = field.type
-        if isinstance(f_type, str):
-            f_type = get_type_hints(type_).get(field.name)
+        if isinstance(f_type, str) or _has_forward_ref(f_type):
+            if hints is None:
+                hints = get_type_hints(type_)
+
+            f_type = hints.get(field.name)
 
             if f_type is None:
                 raise RuntimeError(
